@@ -655,7 +655,7 @@ func goroutineReceives(g *ssa.Go, arg ssa.Value) bool {
 // slotResetRule: the ring frees a slot (mark=0) only together with clearing one/multi/resps.
 func slotResetRule(r *Report, rule string) {
 	n := 0
-	for _, fn := range r.P.Funcs("rueidis.(*ring).") {
+	for _, fn := range ringScope(r.P) {
 		for _, a := range FieldAccessesIn(fn, nodeT, "mark") {
 			st, ok := a.Instr.(*ssa.Store)
 			if !ok {
